@@ -75,10 +75,11 @@ Fixpoint pyhash (a : atom) : hval :=
 
 (* How an attribute enters hash_key: as the value itself (hashed by the enclosing
    tuple hash), or through repr()/float.hex() (a string). *)
-Inductive enc := EHash | ERepr.
+(* EOther: some other rendering of the attribute (e.g. '%g' % value) about which nothing is known *)
+Inductive enc := EHash | ERepr | EOther.
 
 Definition encode (e : enc) (a : atom) : hval :=
-  match e with EHash => pyhash a | ERepr => HRepr a end.
+  match e with EHash => pyhash a | ERepr => HRepr a | EOther => HNone end.
 
 (* Domains of attributes (what the constructors coerce to). *)
 Inductive ty := TNat | TBool | TStr | TFloat | TNatTup | TOptNat | TBfun.
@@ -174,6 +175,7 @@ Definition field_ok (cs : cspec) (nt : string * ty) : bool :=
   | None => false
   | Some EHash => match snd nt with TFloat => false | _ => true end
   | Some ERepr => true
+  | Some EOther => false
   end.
 Definition class_ok (cs : cspec) : bool := forallb (field_ok cs) (seml cs).
 Definition covers (T : table) : bool := forallb (fun kc => class_ok (snd kc)) T.
@@ -330,6 +332,97 @@ End Memo.
 (* level 1 (compile.py:118-121): cache_key = (vf.hash(), (on_demand,)) *)
 Definition keq1 (a b : hval * bool) : bool := hval_eqb (fst a) (fst b) && Bool.eqb (snd a) (snd b).
 Definition keyof1 (T : table) (r : form * bool) : hval * bool := (form_key T (fst r), snd r).
+
+(* ------------------------------------------------------------------ *)
+(* Form OBJECTS: VForm.hash() memoises its value in self.__hash (vform.py:260-268) and
+   VForm.add() refuses to extend the form once the guard fires (vform.py:397-400).
+   Histories of add() / hash() / compile_vform() on several objects sharing the cache. *)
+Inductive guard := GHash | GFinal | GNone.   (* `self.__hash is not None` | `self.__is_finalized` | no guard *)
+Record obj := mk_obj { o_form : form; o_memo : option hval; o_final : bool }.
+
+Definition blocked (g : guard) (o : obj) : bool :=
+  match g with
+  | GHash => match o_memo o with Some _ => true | None => false end
+  | GFinal => o_final o
+  | GNone => false
+  end.
+
+Definition add_expr (f : form) (e : node) : form :=
+  mk_form (f_dim f) (f_arity f) (f_vec f) (f_spacetime f) (f_boundary f)
+          (f_bfs f) (f_inputs f) (f_vars f) (f_exprs f ++ [e]).
+
+(* VForm.hash(): compute once, then return the stored value *)
+Definition obj_hash (T : table) (o : obj) : obj * hval :=
+  match o_memo o with
+  | Some k => (o, k)
+  | None => let k := form_key T (o_form o) in (mk_obj (o_form o) (Some k) (o_final o), k)
+  end.
+
+Inductive op := OAdd (i : nat) (e : node) | OHash (i : nat) | OCompile (i : nat) (od : bool).
+Inductive outcome (C : Type) := RAdded | RRaised | RHashed (k : hval) | RClass (hit : bool) (c : C).
+Arguments RAdded {C}. Arguments RRaised {C}. Arguments RHashed {C} k. Arguments RClass {C} hit c.
+
+Definition upd {A} (i : nat) (x : A) (l : list A) : list A := firstn i l ++ x :: skipn (S i) l.
+
+Section History.
+  Variable g : guard.
+  Variable T : table.
+  Variable C : Type.
+  Variable gen : bool -> form -> C.       (* generate + compile of the CURRENT content of the object *)
+  Definition hstate := (memo (hval * bool) C * list obj)%type.
+
+  Definition hstep (st : hstate) (o : op) : hstate * outcome C :=
+    let (cache, objs) := st in
+    match o with
+    | OAdd i e =>
+        match nth_error objs i with
+        | None => (st, RRaised)
+        | Some ob =>
+            if blocked g ob then (st, RRaised)
+            else ((cache, upd i (mk_obj (add_expr (o_form ob) e) (o_memo ob) (o_final ob)) objs), RAdded)
+        end
+    | OHash i =>
+        match nth_error objs i with
+        | None => (st, RRaised)
+        | Some ob => let (ob', k) := obj_hash T ob in ((cache, upd i ob' objs), RHashed k)
+        end
+    | OCompile i od =>
+        match nth_error objs i with
+        | None => (st, RRaised)
+        | Some ob =>
+            let (ob', k) := obj_hash T ob in
+            match mlookup _ _ keq1 (k, od) cache with
+            | Some c => ((cache, upd i ob' objs), RClass true c)
+            | None =>
+                (* generate() -> finalize(): raises when the form has been finalized before *)
+                if o_final ob' then ((cache, upd i ob' objs), RRaised)
+                else let c := gen od (strip_form T (o_form ob')) in
+                     ((((k, od), c) :: cache, upd i (mk_obj (o_form ob') (o_memo ob') true) objs), RClass false c)
+            end
+        end
+    end.
+
+  Fixpoint hrun (st : hstate) (ops : list op) : list (outcome C) :=
+    match ops with
+    | [] => []
+    | o :: ops' => let (st', r) := hstep st o in r :: hrun st' ops'
+    end.
+
+  (* the property along a history: a class handed out for object i is the one generated from
+     the content object i has at that moment *)
+  Definition good_outcome (st : hstate) (o : op) (r : outcome C) : Prop :=
+    match o, r with
+    | OCompile i od, RClass _ c =>
+        exists ob, nth_error (snd st) i = Some ob /\ c = gen od (strip_form T (o_form ob))
+    | _, _ => True
+    end.
+
+  Fixpoint hrun_good (st : hstate) (ops : list op) : Prop :=
+    match ops with
+    | [] => True
+    | o :: ops' => let (st', r) := hstep st o in good_outcome st o r /\ hrun_good st' ops'
+    end.
+End History.
 
 (* compile.py:68: modname = 'mod' + hashlib.shake_128(src.encode()).hexdigest(8) *)
 Definition modname (digest : string -> string) (src : string) : string := ("mod" ++ digest src)%string.
